@@ -135,20 +135,30 @@ def exec_characterize(r):
         base = type(str("UserPartBase"), (core.AbstractPart,), {"cutter": cutter})
         for i, sg in enumerate(u["sigs"]):
             keep.append(type(str("UserPart%d" % i), (base, rolebase), {"signature": tuple(sg)}))
+    for i, sg in enumerate(r["base"].get("subsigs", [])):
+        # a user hierarchy that specialises a CONCRETE kit type: the type itself stays a candidate of its own characterize
+        keep.append(type(str("%sSub%d" % (base.__name__, i)), (base,), {"signature": tuple(sg)}))
     cands = list(base.__subclasses__())
     if not isabstract(base):
         cands.append(base)
+
+    def ask(seq):
+        res = {"cls": "", "exc": ""}
+        try:
+            ent = guarded(lambda: base.characterize(record(seq)))
+            res["cls"] = type(ent).__name__
+            res["valid"] = bool(ent.is_valid())
+        except RuntimeError:
+            res["exc"] = "RuntimeError"
+            res["valid"] = False
+        except BaseException as ex:  # noqa
+            res["exc"] = type(ex).__name__
+            res["valid"] = False
+        return res
     ev = {"ev": "Characterize", "seq": dna.enc(r["seq"]), "base": base.__name__,
-          "cands": [classes.describe(c) for c in cands], "res": {"cls": "", "exc": ""}}
-    try:
-        ent = guarded(lambda: base.characterize(record(r["seq"])))
-        ev["res"]["cls"] = type(ent).__name__
-        ev["res"]["valid"] = bool(ent.is_valid())
-    except RuntimeError as ex:
-        ev["res"]["exc"] = "RuntimeError"
-        ev["res"]["valid"] = False
-    except BaseException as ex:  # noqa
-        ev["res"]["exc"] = type(ex).__name__
-        ev["res"]["valid"] = False
+          "cands": [classes.describe(c) for c in cands], "res": ask(r["seq"]), "twin": {"by": "none", "res": {}}}
+    tw = r.get("twin")
+    if tw:          # the same plasmid in another spelling / at another origin
+        ev["twin"] = {"by": tw["by"], "res": ask(transform(r["seq"], tw))}
     del keep
     return [ev]
